@@ -17,6 +17,7 @@ def assign_parts(n):
     return None
 
 TITLE = "JSON texts and values round-trip and agree with RFC 8259"
+TECHNIQUE = 'interprocedural cursor-window abstract interpretation (modular assume/guarantee summaries) over the recursive-descent parser; escape-table extraction from both switch statements; exact finite-domain evaluation of pure integer expressions (surrogate arithmetic, UTF-8 encoder) taken from the AST; dominance rules for limits'
 JP = "iora::parsers::JsonParser"
 JS = "iora::parsers::Json"
 JF = "iora/parsers/json.hpp"
